@@ -34,7 +34,10 @@ class Skip(Expression):
                         out += Code('continue')
                     continue
 
-                with out.IF(STATUS):
+                # Only start over when the expression made progress. (It may be
+                # a reference to a rule that succeeds without consuming input,
+                # like the ignored patterns of a super-grammar.)
+                with out.IF(Code(STATUS, ' and ', POS, ' != ', checkpoint)):
                     out += Code('continue')
 
                 if expr.can_partially_succeed():
